@@ -190,7 +190,7 @@ struct Program {
 };
 
 // ---------------------------------------------------------------------------------------------- inputs
-enum { PAT_RANDOM = 0, PAT_ALLMAX, PAT_ALTERNATING, PAT_SPARSE, PAT_ZERO, PAT_SINGLE, PAT_MIXED, PAT_NPAT };
+enum { PAT_RANDOM = 0, PAT_ALLMAX, PAT_ALTERNATING, PAT_SPARSE, PAT_ZERO, PAT_SINGLE, PAT_MIXED, PAT_INT64_EDGE, PAT_NPAT };
 /** deterministic integer input: element idx of a value described by (pattern,bits,dseed,nnz) */
 int64_t input_value(int pattern, int bits, uint64_t dseed, int nnz, uint64_t total, uint64_t idx);
 
@@ -237,6 +237,8 @@ struct GenCfg {
   int big_n_pct = 5;            // chance of a large dimension
   int max_big_log2n = 12;
   bool history_mode = false;    // C15: one totally ordered history, each call issued by a random thread
+  bool allow_ties = false;      // identity-oracle worlds: conversion inputs may be exact .5 ties
+  bool tiny_values = false;     // some floating inputs are tiny (products become subnormal): FP-environment sensitivity
   bool adjacent_slots = false;  // some buffers are carved back to back from one block
   bool lib_alloc_slots = false; // some opaque objects come from new_vec_znx_dft/big, new_svp_ppol, new_vmp_pmat
   bool shared_setup = false;    // C12: prepared objects and inputs produced in a setup section shared by tasks
@@ -284,7 +286,7 @@ struct Exec {
   std::vector<std::pair<uint64_t, uint64_t>> obj_seq;  // allocation sequence range of every module / table (conservation)
   // statistics
   uint64_t n_calls = 0, n_protect = 0, n_prefill[SIM_FILL_NKINDS] = {0}, n_off[8] = {0}, n_exact = 0, n_life = 0, n_twin = 0;
-  uint64_t n_model_checks = 0, n_adjacent = 0;
+  uint64_t n_model_checks = 0, n_adjacent = 0, n_fpenv_checks = 0;
 
   Exec(const Program& p, const ExecEnv& e, Exec* b = nullptr);
   ~Exec();
